@@ -423,6 +423,34 @@ def x6_listen(F, R, listen_field):
                 R.check(bad is None, 'X6', '%s:unlisten-predicate' % b['id'], site(sg, c), 'unlisten keeps exactly the other ports', 'unlisten: %s' % bad)
 
 
+def x6b_sorted_search(F, R, listen_field):
+    """A binary search over the listening set presupposes that the set is kept sorted: when any manager function searches that
+    field with `binary_search*`, every insertion into it must be an `insert` at an index obtained from such a search - an
+    appending `push` (call order) makes the search miss ports that are present (unlisten / the listening test then fail silently)."""
+    searches, appends = [], []
+    for b in F.bodies.values():
+        if b.get('impl_adt') != MGR or 'impl_trait' in b or b['kind'] != 'AssocFn' or not F.handwritten(b):
+            continue
+        sg = supergraph(F, b['id'], tag='flat', max_depth=0)
+        S = sg.sym
+        onf = lambda t: any(x[0] == 'loc' and any(pp[0] == 'f' and pp[1] == listen_field and len(pp) > 2 and pp[2] == MGR for pp in x[2]) for x in deep_subterms(S, t))
+        for c in sg.calls(lambda d: d.get('fn', '').rsplit('::', 1)[-1].startswith('binary_search')):
+            if onf(S.operand(c.id, c.d['args'][0])):
+                searches.append((b, site(sg, c)))
+        for c in sg.calls(lambda d: d.get('fn', '').startswith('alloc::vec::Vec::') and d['fn'].rsplit('::', 1)[1] in ('push', 'insert', 'extend', 'append')):
+            if not onf(S.operand(c.id, c.d['args'][0])):
+                continue
+            sorted_ins = c.d['fn'].endswith('::insert') and any(x[0] == 'call' and x[2].rsplit('::', 1)[-1].startswith('binary_search')
+                                                                for x in deep_subterms(S, S.operand(c.id, c.d['args'][1])))
+            if not sorted_ins:
+                appends.append((b, site(sg, c)))
+    for b, w in searches:
+        R.check(not appends, 'X6', '%s:sorted-search-needs-sorted-insert' % b['id'], w, 'binary search only over a set that is inserted in sorted position',
+                '%s searches the listening set with a binary search, but %s adds ports in call order (not at a searched position): the search can miss a port '
+                'that is present, so the port keeps listening after unlisten (or is treated as not listening)' % (b['name'], appends[0][0]['name'] if appends else '?'))
+    R.count('sorted_searches', len(searches))
+
+
 def x7_shutdown_flag(F, R):
     conn = 'device::socket::connectionmanager::Connection'
     if conn not in F.adts:
@@ -480,6 +508,7 @@ def run(F, R):
         raise Undecided('cannot identify connection table / listening set fields: %s' % fields)
     table, listen = table[0], listen[0]
     x6_listen(F, R, listen)
+    x6b_sorted_search(F, R, listen)
     lookups = [b['id'] for b in lookup_fns(F)]
     if not lookups:
         raise Undecided('connection lookup helpers not found')
